@@ -1035,6 +1035,29 @@ func (sc *specCtx) call(e *CCall) Val {
 			}
 			n.vars[p.Name] = v
 		}
+		if sf.Body == nil {
+			// uninterpreted spec function: only congruence is known about it
+			// (everything else comes from assumed contracts that mention it)
+			rs, rty := n.quantSort(sf.Ret)
+			if sf.Ret == "bool" {
+				rs, rty = SBool, types.Typ[types.Bool]
+			}
+			fn := "usf_" + sanitize(sf.PkgPath) + "_" + sf.Name
+			var as, sorts []string
+			for _, p := range sf.Params {
+				t, ok := n.vars[p.Name].(*Term)
+				if !ok {
+					unsup("spec: argument %s of %s is not a value", p.Name, sf.Name)
+				}
+				as = append(as, t.S)
+				sorts = append(sorts, t.Sort)
+			}
+			if !vc.declared[fn] {
+				vc.declared[fn] = true
+				vc.emitDecl("(declare-fun " + fn + " (" + strings.Join(sorts, " ") + ") " + rs + ")")
+			}
+			return &Term{"(" + fn + " " + strings.Join(as, " ") + ")", rs, rty}
+		}
 		r := n.eval(sf.Body)
 		if t, ok := r.(*Term); ok && sf.Ret != "" {
 			t = n.solo(t)
